@@ -50,9 +50,9 @@ CorruptOk(r) == /\ SfxPre(r)
                 /\ ExpectedTried(r)
                 /\ r.accepted = <<>> /\ r.delivered = <<>>
 
-TraceFrameNew == IsEvent("FrameNew") /\ FrameNewOk(Rec[l])
-TraceSfx      == IsEvent("Sfx")      /\ SfxOk(Rec[l])
-TraceCorrupt  == IsEvent("Corrupt")  /\ CorruptOk(Rec[l])
+TraceFrameNew == IsEvent("FrameNew") /\ FrameNewOk(Rec[l]) = TRUE     \* '= TRUE': evaluate as a value, do not expand into successor states
+TraceSfx      == IsEvent("Sfx")      /\ SfxOk(Rec[l]) = TRUE
+TraceCorrupt  == IsEvent("Corrupt")  /\ CorruptOk(Rec[l]) = TRUE
 
 Init == l = 1
 Next == TraceFrameNew \/ TraceSfx \/ TraceCorrupt
